@@ -23,10 +23,41 @@ CHECKS = {
              "sequenced by the simulator; generated programs cover a core fragment of the language.",
         design_ref="DESIGN.md section 3, C08",
     ),
+    "C07": dict(
+        engine="sessim",
+        category="exploration",
+        technique="deterministic simulation of session histories: fault = the failed evaluation step, retry = :resume, "
+                  "with interrupts injected inside and between the retries",
+        text="Every runtime-error site the generator can enumerate (all built-in functions and methods declared in "
+             "src/__*.gdn x wrong type per argument / arity-1 / arity+1 / wrong receiver, every binary operator x wrong "
+             "side, 38 language-level errors) x 11 placements x 3 resume histories is run in a fresh simulated session; "
+             "every :resume must stop again with the same message, position and frame, re-execute the same step, print "
+             "nothing, and an interrupt landing inside a resume must be reported. Sampled over placements in the quick "
+             "tier, complete over (site x placement) in the thorough tier.",
+        note="Site list is derived from the repository's own .gdn declarations plus a hand-written list of language-level "
+             "errors; errors only reachable through other paths are not covered. Six sites are known findings (see "
+             "known_findings.txt).",
+        design_ref="DESIGN.md section 3, C07",
+    ),
+    "C09": dict(
+        engine="sessim",
+        category="exploration",
+        technique="deterministic simulation of seeded request histories against the real reader/worker handlers, with "
+                  "step-indexed interrupt injection, idle interrupts, bursts and malformed requests; history oracle",
+        text="Seeded histories of 3..25 requests (swarm-weighted mix of definitions, expressions, failing sites, "
+             "in-context expressions, test definitions, load, eval_up_to, malformed requests, 75 command forms issued "
+             "in any state) plus a fixed epilogue; oracle over the recorded history: no handler panics, exactly one "
+             "response per request in request order with the request's id when present, exactly one well-formed ack "
+             "per interrupt request. Panics are attributed to known defect families by counterfactual replay.",
+        note="The stdin framing loop is not simulated; thread spawn/recv loop are sequenced by the simulator. Panics that "
+             "need :skip/:replace, a C07-known error site, or a test run while stopped are known findings keyed by "
+             "family and symptom.",
+        design_ref="DESIGN.md section 3, C09",
+    ),
 }
 
 PENDING = {p: "claimed in DESIGN.md; its check is not built yet, so nothing is claimed for it in this manifest"
-           for p in ["C07", "C09", "C10", "C11", "C24", "C25", "C26", "C28", "C30", "C31"]}
+           for p in ["C10", "C11", "C24", "C25", "C26", "C28", "C30", "C31"]}
 
 NOT_APPLICABLE = {
     "C01": "lex/parse/check never crash: a pure function of one source string; no schedule, clock, fault or history to simulate (fuzzing territory)",
